@@ -38,6 +38,8 @@ PropertyStep ==
 ConformStep ==
     \* (once a certificate exists the leader starts the next block: the aggregate shown is then the new round's)
     (l < Len(Trace) /\ Line.op \in {"begin", "contrib"} /\ Len(Line.qcs) = 0) => ToSet(Line.agg) = agg'
-PropertyOK == [][PropertyStep]_vars
+\* what left the node is verified once more after all traffic of the sequence: it must still verify
+RecheckStep == (l < Len(Trace) /\ Line.op = "recheck") => Line.bad = 0
+PropertyOK == [][PropertyStep /\ RecheckStep]_vars
 ConformsToModel == [][ConformStep]_vars
 =============================================================================
